@@ -66,6 +66,9 @@ def trip(x):
         return (x._real._s, x._real._exp, x._real._c)
     if cls_name(x) == 'float':
         return (f64_sign(x), f64_exp(x), f64_c(x))
+    if cls_name(x) == 'Fraction':
+        # a dyadic Fraction n / 2^k (lowest terms, so k = bit_length(d) - 1): n * 2^-k
+        return (x < 0, 1 - bl(x.denominator), abs(x.numerator))
     # int (bool counts as int)
     return (x < 0, 0, ite(x < 0, -x, x))
 
@@ -143,6 +146,27 @@ def t_int_value(t):
 def t_val_q(t):
     """D(t) as a rational number"""
     return to_real(t_sc(t) * pow2(t[1])) if t[1] >= 0 else rdiv(t_sc(t), pow2(-t[1]))
+
+
+def q_dyadic(x):
+    """the Fraction x is a dyadic rational: its lowest-terms denominator is a power of two"""
+    return is_pow2_int(x.denominator)
+
+
+def finite_operand(x):
+    """x (RealFloat | int | float | Fraction) denotes a dyadic rational (trip(x) is defined)"""
+    if cls_name(x) == 'float':
+        return f64_finite(x)
+    if cls_name(x) == 'Fraction':
+        return q_dyadic(x)
+    if cls_name(x) == 'Float':
+        return not x._isinf and not x._isnan
+    return True
+
+
+def has_zero_sign(x):
+    """operand types that carry a sign on zero"""
+    return cls_name(x) == 'RealFloat' or cls_name(x) == 'float' or cls_name(x) == 'Float'
 
 
 def ord_is(result, nm):
